@@ -14,7 +14,7 @@ from vlib import hexs, unhex
 
 WKEYS = [b"a", b"b", b"core", b"name", b"10", b'"a"', b"unit", b"@v"]
 WOPS = [b"=", b"=", b"=", b"<", b">=", b"!=", b"?=", b"=="]
-WVALS = [b"1", b"yes", b"x", b'"q r"', b"{ 1 2 }", b"{ a=1 a=2 }", b"rgb { 1 2 3 }", b"{ }", b"hsv{ a=b }", b"-5", b"1.5", b"{ a=1 7 8 }"]
+WVALS = [b"1", b"yes", b"x", b'"q r"', b'" lead"', b"h\xe9", b'"\xc3\xa9 "', b"{ 1 2 }", b"{ a=1 a=2 }", b"rgb { 1 2 3 }", b"{ }", b"hsv{ a=b }", b"-5", b"1.5", b"{ a=1 7 8 }"]
 
 
 def wide_doc(rng):
